@@ -87,6 +87,34 @@ def machine_cfgs(seed, quick):
     return out
 
 
+def stepsrev_cfgs(seed, quick):
+    """configurations with StepsPerRevolution > 0 (own PRNG): the option overrides StepsPerTs, the run then takes
+    steps = StepsPerRevolution*f_rev/f_s steps per synchrotron period - in general not a whole number and never the value of the
+    StepsPerTs OPTION (given as something else here, or left at its default 1000).  Time axis (value k/steps of every record,
+    final record included), laststep, dt, the Second/Turn factors all follow the EFFECTIVE step count.  f_s is given explicitly
+    (binary32-exact) in most cases so that steps is the exact double spr*f_rev/f_s; the alpha0 route is used for the rest."""
+    import random
+    rng = random.Random(seed * 104729 + 7)
+    out = []
+    F_REV = 9e6
+    for i in range(6 if quick else 40):
+        fs = rng.choice([30e3, 61e3, 45e3, None])
+        target = rng.choice([8.3, 12.5, 17.0, 25.55, 10.0, 33.3, 20.5])
+        spr = target * (fs if fs else 33.2e3) / F_REV        # alpha0 route: f_s is near 33 kHz for the default machine
+        rot = rng.choice(["0.5", "1", "1.5", "0.75"])
+        last = int(math.ceil(target * float(rot)))
+        kw = dict(n=rng.choice([16, 20, 24]), steps=rng.choice([1000, 1000, 10, 20, 40]), rot=rot,
+                  outstep=rng.choice([1, 2, 3, 5, 7, last + 2]), save=rng.choice([0, 1, 2, 3]),
+                  currents=rng.choice([[1e-3], [1e-3, 5e-4], [4e-4, 0, 1.2e-3]]), shiftx=rng.choice([0, 1]), shifty=rng.choice([0, -2]),
+                  renorm=rng.choice([0, -1, 3]), padding=rng.choice([2, 4]), gap=rng.choice([0.03, -0.03, 0]), spr=spr)
+        if fs:
+            kw["fs"] = fs
+        c = hc.Cfg(**kw)
+        c.cid, c.imp = "v%d" % i, "steps-per-revolution"
+        out.append(c)
+    return out
+
+
 def close(a, b, tol):
     return abs(a - b) <= tol
 
@@ -133,14 +161,15 @@ class FileCheck:
             if m["dims"]["rowsok"][i] != ["1"]:
                 self.disagree("rows_ok false in the model", path)
         # time values: float(double(k)/steps) exactly as the C++ computes them
-        steps = float(c.steps)
+        steps = c.eff_steps()      # StepsPerTs, or StepsPerRevolution*f_rev/f_s when that option is set
         for i, path in ((0, "/Info/AxisValues_t"), (12, "/PhaseSpace/axis0")):
             vals = h.values(path)
             exp = [hc.f32(float(k) / steps) for k in tags[i]]
             if vals != exp:
                 self.disagree("values of %s" % path, dict(file=vals[:12], model=exp[:12]))
-                self.bad("time-axis", "%s does not list the output steps in synchrotron periods" % path,
-                         observed=vals[:20], expected=exp[:20], dataset=path)
+                self.bad("time-axis", "%s does not list the output steps in synchrotron periods%s" % (
+                             path, " (StepsPerRevolution %r: %.6g steps per synchrotron period, StepsPerTs option %s)" % (c.spr, steps, c.steps) if c.spr else ""),
+                         observed=vals[:20], expected=exp[:20], dataset=path, steps_per_revolution=bool(c.spr))
             mq = [parse_q(t) for t in m["tv%d" % i]["t"]]
             for v, q in zip(vals, mq):
                 if abs(Fraction(v) - q) > ulp32(q):
@@ -425,7 +454,7 @@ def model_text(c, d):
     stop = c.laststep()
     t = "sched %s.sched %s %s %d %s\n" % (c.cid, hc.zt(c.outstep), hc.zt(c.save), 1 if c.has_wake() else 0, hc.zt(stop))
     t += "dims %s.dims %s %s %s %s %s\n" % (c.cid, hc.zt(nb), hc.zt(n), hc.zt(nmax), hc.zt(imp), hc.zt(np_))
-    t += "laststep %s.last %s %s\n" % (c.cid, qtok(Fraction(c.steps)), qtok(Fraction(float(c.rot))))
+    t += "laststep %s.last %s %s\n" % (c.cid, qtok(Fraction(c.eff_steps())), qtok(Fraction(float(c.rot))))
     pq = Fraction(hc.f32(c.pqsize)) if c.pqsize is not None else Fraction(12)
     t += "axis %s.axz %s %s %s\n" % (c.cid, hc.zt(n), qtok(pq), qtok(Fraction(hc.f32(c.shiftx))))
     t += "axis %s.axe %s %s %s\n" % (c.cid, hc.zt(n), qtok(pq), qtok(Fraction(hc.f32(c.shifty))))
@@ -435,7 +464,7 @@ def model_text(c, d):
 def model_time_text(c, tags):
     t = ""
     for i in (0, 12):
-        t += "tvals %s.tv%d %s %d %s\n" % (c.cid, i, qtok(Fraction(c.steps)), len(tags[i]), " ".join(hc.zt(k) for k in tags[i]))
+        t += "tvals %s.tv%d %s %d %s\n" % (c.cid, i, qtok(Fraction(c.eff_steps())), len(tags[i]), " ".join(hc.zt(k) for k in tags[i]))
     return t
 
 
@@ -461,6 +490,10 @@ def check_cfg(ctx, tg, c, dis, keep=None):
                           case=c.replay(), observed=(so + se)[-600:], sig=dict(kind="h5", clause="run"))
             return
         d = hc.derive(P, c.currents)
+        if c.spr:
+            # the effective number of steps per synchrotron period: main()'s `steps` = StepsPerRevolution*f_rev/f_s (double)
+            c.steps_eff = d["steps"]
+            ctx.count("steps:StepsPerRevolution(%s steps per T_s)" % ("whole" if float(d["steps"]).is_integer() else "non-integer"))
         m1 = hc.run_model(model_text(c, d))
         tags = {i: [hc.pz(t) for t in m1[c.cid + ".sched"]["tags"][i]] for i in range(16)}
         m2 = hc.run_model(model_time_text(c, tags))
@@ -499,7 +532,8 @@ def run(ctx):
               hc.Cfg(n=17, steps=8, rot="1", outstep=3, save=3, currents=[5e-4], gap=-0.03, renorm=-1, shiftx=1, shifty=1.5)]
     for i, c in enumerate(corpus):
         c.cid, c.imp = "c%d" % i, "corpus"
-    cases = corpus + [gen_cfg(ctx.rng, i, ctx.quick()) for i in range(ncfg)] + machine_cfgs(ctx.seed, ctx.quick())
+    cases = corpus + [gen_cfg(ctx.rng, i, ctx.quick()) for i in range(ncfg)] + machine_cfgs(ctx.seed, ctx.quick()) \
+        + stepsrev_cfgs(ctx.seed, ctx.quick())
     for c in cases:
         check_cfg(ctx, tg, c, dis)
     ctx.extra["correspondence_disagreements"] = len(dis)
@@ -517,7 +551,7 @@ def replay(ctx, rp):
     case = rp.get("case") or {}
     kw = {k: v for k, v in case.items() if k in ("n", "steps", "rot", "outstep", "save", "currents", "shiftx", "shifty", "gap",
                                                 "usecsr", "wallcond", "collimator", "renorm", "tracking", "padding", "cutoff", "extra", "zoom",
-                                                "bend", "alpha0", "fs", "vrf", "pqsize")}
+                                                "bend", "alpha0", "fs", "vrf", "pqsize", "spr")}
     c = hc.Cfg(**kw)
     c.cid, c.imp = "replay", "replay"
     dis = []
